@@ -37,10 +37,10 @@ use serde_json::Value;
 use std::collections::HashMap;
 use std::io::Write;
 
-fn kvc(t: &str, sep: char, eq: char) -> HashMap<String, String> {
+pub(crate) fn kvc(t: &str, sep: char, eq: char) -> HashMap<String, String> {
   t.split(sep).filter_map(|p| p.split_once(eq)).map(|(a, b)| (a.to_string(), b.to_string())).collect()
 }
-fn oi(m: &HashMap<String, String>, k: &str) -> Option<Option<i64>> {
+pub(crate) fn oi(m: &HashMap<String, String>, k: &str) -> Option<Option<i64>> {
   match m.get(k).map(|s| s.as_str()) {
     None | Some("~") => Some(None),
     Some(v) => v.parse().ok().map(Some),
@@ -52,7 +52,7 @@ fn did_i(n: i64) -> String {
 }
 
 /// issuer document: methods hold toy JWKs; an optional revocation bitmap service
-fn build_doc(spec_s: &str) -> Option<CoreDocument> {
+pub(crate) fn build_doc(spec_s: &str) -> Option<CoreDocument> {
   let (core, bm) = match spec_s.split_once(";bm=") {
     Some((a, b)) => (a, Some(b)),
     None => (spec_s, None),
@@ -225,7 +225,7 @@ fn build_token(t: &str) -> Option<Tok> {
   Some(Tok { jwt: sign_compact(&Value::Object(hdr).to_string(), &claims_json, sig) })
 }
 
-fn scope_of(t: &str) -> Option<Option<MethodScope>> {
+pub(crate) fn scope_of(t: &str) -> Option<Option<MethodScope>> {
   Some(match t {
     "~" => None,
     "vm" => Some(MethodScope::VerificationMethod),
